@@ -243,12 +243,68 @@ def gen_scan():
             f"Definition tool_version : pystr := [{'; '.join(str(ord(c)) for c in v)}].   (* {v} *)\n")
 
 
+def _compare_conditions():
+    out=[]
+    B="codelimit/common/token_matching/predicate/Balanced.py"
+    try:
+        out.append(t_mutator(B, "Balanced.accept", "balanced_accept", [("is_left","bool"),("is_right","bool"),("self_depth","Z"),("self_satisfied","bool")], "bool * Z * bool",
+              ["self_depth","self_satisfied"], self_fields=["depth","satisfied","left","right"], return_state=["self_depth","self_satisfied"],
+              aliases={"self.left.accept(token)":"is_left","self.right.accept(token)":"is_right"}))
+    except Exception as e:
+        out.append("FAIL balanced: %r" % (e,))
+    S="codelimit/common/scope/scope_utils.py"
+    def nth_compare(text):
+        def pick(fn):
+            for n in ast.walk(fn):
+                if isinstance(n,(ast.Compare,ast.BoolOp)) and ast.unparse(n)==text: return n
+            return None
+        return pick
+    out.append(t_expr(S,"_get_nearest_block","nearest_block_is_later",[("bs","Z"),("he","Z")],"bool",nth_compare("block.start >= header.end"),cond=True,aliases={"block.start":"bs","header.end":"he"}))
+    out.append(t_expr(S,"_find_scope_blocks_indices","scope_block_after_header",[("bs","Z"),("he","Z")],"bool",nth_compare("blocks[i].start >= header.end"),cond=True,aliases={"blocks[i].start":"bs","header.end":"he"}))
+    out.append(t_expr(S,"_scope_tokens","child_range_passed",[("index","Z"),("ce","Z")],"bool",nth_compare("index >= children_token_ranges[0].end"),cond=True,aliases={"children_token_ranges[0].end":"ce"}))
+    out.append(t_expr(S,"_scope_tokens","before_child_range",[("index","Z"),("cs","Z")],"bool",nth_compare("index < children_token_ranges[0].start"),cond=True,aliases={"children_token_ranges[0].start":"cs"}))
+    L="codelimit/common/lexer_utils.py"
+    out.append(t_expr(L,"lex","lex_past_newline",[("off","Z"),("nl","Z")],"bool",nth_compare("t[0] > indices[newline_index]"),cond=True,aliases={"t[0]":"off","indices[newline_index]":"nl"}))
+    PY="codelimit/languages/Python.py"
+    out.append(t_expr(PY,"Python.extract_blocks","py_header_at_end",[("he","Z"),("n","Z")],"bool",nth_compare("header.token_range.end >= len(tokens)"),cond=True,aliases={"header.token_range.end":"he","len(tokens)":"n"}))
+    out.append(t_expr(PY,"Python.extract_blocks","py_line_not_below_header",[("line_nr","Z"),("header_line_nr","Z")],"bool",nth_compare("line_nr <= header_line_nr"),cond=True))
+    out.append(t_expr(PY,"Python.extract_blocks","py_line_deeper",[("line_indentation","Z"),("header_indentation","Z")],"bool",nth_compare("line_indentation > header_indentation"),cond=True))
+    MA="codelimit/common/gsm/matcher.py"
+    out.append(t_expr(MA,"find_all","find_all_after_last",[("ps","Z"),("me","Z")],"bool",nth_compare("pattern.start >= matches[-1].end"),cond=True,aliases={"pattern.start":"ps","matches[-1].end":"me"}))
+    PA="codelimit/common/gsm/Pattern.py"
+    out.append(t_expr(PA,"Pattern.consume","group_is_open",[("depth","Z")],"bool",nth_compare("getattr(self._predicate(t), 'depth', 0) > 0"),cond=True,aliases={"getattr(self._predicate(t), 'depth', 0)":"depth"}))
+    return "\n".join(out)
+
+
+def gen_compare():
+    out = [HEADER.format(src="TokenRange.py, Location.py, scope/Scope.py, scope/scope_utils.py"),
+           "From Verif Require Import Base.\nOpen Scope Z_scope.\n",
+           "(* the comparison operators of the scope pipeline, as the source states them (ranges and positions as integers) *)\n"]
+    TR = "codelimit/common/TokenRange.py"
+    al = {"self.start": "s1", "self.end": "e1", "other.start": "s2", "other.end": "e2"}
+    ps = [("s1", "Z"), ("e1", "Z"), ("s2", "Z"), ("e2", "Z")]
+    out.append(t_func(TR, "TokenRange.lt", "token_range_lt", ps, "bool", aliases=al))
+    out.append(t_func(TR, "TokenRange.contains", "token_range_contains", ps, "bool", aliases=al))
+    out.append(t_func(TR, "TokenRange.overlaps", "token_range_overlaps", ps, "bool", aliases=al))
+    LO = "codelimit/common/Location.py"
+    al = {"self.line": "l1", "self.column": "c1", "other.line": "l2", "other.column": "c2"}
+    ps = [("l1", "Z"), ("c1", "Z"), ("l2", "Z"), ("c2", "Z")]
+    for m in ("lt", "le", "gt", "ge"):
+        out.append(t_func(LO, f"Location.{m}", f"location_{m}", ps, "bool", aliases=al))
+    SC = "codelimit/common/scope/Scope.py"
+    out.append(t_func(SC, "Scope.contains", "scope_contains", [("hs1", "Z"), ("be1", "Z"), ("hs2", "Z"), ("be2", "Z")], "bool",
+                      aliases={"self.header.token_range.start": "hs1", "other.header.token_range.start": "hs2",
+                               "self.block.end": "be1", "other.block.end": "be2"}))
+    out.append(_compare_conditions())
+    return "\n".join(out)
+
+
 def gen_patterns():
     import capture
     return capture.gen_patterns()
 
 
-TARGETS = {"GenThresholds": gen_thresholds, "GenPatterns": gen_patterns, "GenPercent": gen_percent, "GenDelta": gen_delta, "GenScan": gen_scan}
+TARGETS = {"GenCompare": gen_compare, "GenThresholds": gen_thresholds, "GenPatterns": gen_patterns, "GenPercent": gen_percent, "GenDelta": gen_delta, "GenScan": gen_scan}
 
 
 def main(names=None):
